@@ -35,7 +35,9 @@ class C20(Prop):
     title = 'Bloom filter: no false negatives, BIP37 bit schedule, lossless wire form'
     lean_targets = ['BtcVerif.Props.C20']
     table_groups = ['Bloom']
-    theorems = ['BtcVerif.C20.' + t for t in ()]
+    theorems = ['BtcVerif.C20.' + t for t in (
+        'murmur_eq_spec', 'bloom_hash_eq_schedule', 'bits_eq_schedule', 'contains_eq_spec', 'no_false_negative',
+        'run_ok', 'caps', 'ser_roundtrip', 'reload_preserves_answers', 'empty_matches_all', 'empty_arrives')]
     anchors = [('bitcoin/bloom.py', '_ROTL32'), ('bitcoin/bloom.py', 'MurmurHash3'),
                ('bitcoin/bloom.py', 'CBloomFilter.__init__'), ('bitcoin/bloom.py', 'CBloomFilter.bloom_hash'),
                ('bitcoin/bloom.py', 'CBloomFilter.insert'), ('bitcoin/bloom.py', 'CBloomFilter.contains'),
